@@ -1,5 +1,10 @@
 """C15 - changelog parsing is total and strictness-consistent; output is a normal form (Engine B + A)."""
+import copy
+import io
 import itertools
+import os
+import pickle
+import tempfile
 import warnings
 
 from .. import core
@@ -12,7 +17,13 @@ RULE = ("(a) all sequences of <= n lines over 21 line shapes (one per branch of 
         "or two line insertions/deletions/duplications; (c) all editing histories (new_block, add_change, attribute "
         "assignment) to depth d on the empty and on parsed changelogs.  states = distinct inputs/histories, "
         "transitions = one line or one editing call appended, traces = inputs/histories executed (lenient + strict + "
-        "format + re-parse); non-trivial = inputs that produce at least one block")
+        "format + re-parse); non-trivial = inputs that produce at least one block.  (d) 'the other way in': every "
+        "short sequence and every single-line mutation once more along the other public routes (parse_changelog on a "
+        "fresh / used / failed object, explicit and positional constructor arguments, max_blocks, encoding, real files; "
+        "bytes(), write_to_open_file, per-block str/bytes, copies and pickles; subscripts, len, versions and the "
+        "top-block properties), each compared with the constructor + str() + iteration route validated in (a)/(b); "
+        "editing histories are re-run through the set_* methods, block objects, Version-typed / positional arguments and "
+        "with formatting and reading after every call")
 BUDGET = {"quick": 240, "thorough": 3000}
 
 
@@ -21,13 +32,24 @@ def bounds(tier):
             "mutations_of_wellformed": "single edits on 3 changelogs + pairs on %s" % ("1" if tier == "quick" else "3"),
             "edit_history_depth": 2 if tier == "quick" else 3, "edit_ops": len(OPS),
             "input_forms": "sequences of length <= %d also as bytes, lists/tuples/generators of lines, StringIO, BytesIO, bytes lines: same warnings/strictness/blocks/text" % FORMS_MAXLEN[tier],
+            "routes_pass": "all sequences of length <= %d over the line shapes and all single-line mutations of the 3 well-formed changelogs, allow_empty_author on/off, x {parse_changelog lenient/strict/default-strict on a fresh object, on 5 kinds of used object (parsed two-block, parsed-with-warnings, aborted strict parse, the same text twice, programmatically built), constructor with every argument explicit / positional, file=None, max_blocks in {0,1,2,10**6} (lenient, strict, prefix of the unlimited result, normal form), encoding latin-1/utf-8 for bytes / bytes lines / mixed str+bytes lines with a non-ASCII change text and the per-call encoding override, real text-mode and binary files, str() twice, bytes(), write_to_open_file, initial_blank_lines + str(block)/bytes(block), copy.copy / copy.deepcopy (with independence) / pickle, c[i] for -n <= i < n, len, get_version/versions/get_versions/full_version/epoch/upstream_version/debian_revision/debian_version, c[version text] and c[Version], package/get_package/author/date/distributions/urgency}" % ROUTES_MAXLEN[tier],
+            "edit_route_variants": "every editing history also via %s; final blocks and text must equal the plain history's" % ", ".join(VARIANTS[1:]),
+            "direct_blocks": "ChangeBlock built directly / new_block with an encoding, 3 argument sets x {utf-8, latin-1}: str/bytes of block and changelog agree, bytes re-parse to the same block",
             "pristine_state_pass": "all sequences of length <= %d and all single-line mutations, each evaluated in a process forked from a zygote that only imported the library" % (3 if tier == "quick" else 4)}
 
 
 def assumptions():
     return ["any warning emitted by the lenient constructor counts as 'a warning'",
             "editing arguments are well-formed values (a change line that is itself a trailer is structure injection)",
-            "blocks are compared on package, raw version text, distributions, urgency, changes, author, date"]
+            "blocks are compared on package, raw version text, distributions, urgency, changes, author, date",
+            "max_blocks=k is taken at its documented meaning (parsing stops at heading k+1): the blocks, the initial "
+            "lines and the text are the first k blocks of the unlimited result, and the strict/lenient equivalence and "
+            "the normal form hold for what was parsed; with max_blocks=0 only the lines ahead of the first heading are kept "
+            "and their text is not required to be a normal form (parsing e.g. '# c' alone gives one unformattable block)",
+            "routes not covered by the statement and left out: bytes that cannot be decoded with the given encoding "
+            "(not a text), parse_changelog(None) on a used object (keeps the previous blocks), _format(allow_missing_author=True) "
+            "(private), add_trailing_line on a block without a trailer line (a state no parse produces; the text then runs "
+            "the added line into the changes)"]
 
 
 def shapes(seed):
@@ -219,6 +241,415 @@ def check_forms(text, aea):
     return []
 
 
+# ---------------------------------------------------------------- (d) the other way in: parsing/formatting/reading routes
+
+ROUTES_MAXLEN = {"quick": 2, "thorough": 3}
+BIG = 10 ** 6
+
+
+def _out(c):
+    from debian.changelog import ChangelogCreateError
+    try:
+        return str(c)
+    except ChangelogCreateError:
+        return "<unformattable>"
+    except Exception as ex:
+        return "<str raises %s>" % type(ex).__name__
+
+
+NCALLS = [0]
+
+
+def _call(fn):
+    """-> (result, warnings, exception)"""
+    NCALLS[0] += 1
+    with warnings.catch_warnings(record=True) as w:
+        warnings.simplefilter("always")
+        try:
+            return fn(), [str(x.message) for x in w], None
+        except Exception as e:
+            return None, [str(x.message) for x in w], e
+
+
+def _lenient_vs(ref, c, w, e, route):
+    """compare what a lenient route produced with the reference (warned, strict exception, blocks, text)"""
+    if e is not None:
+        return [("chlog/via-%s/lenient-raises/%s" % (route, type(e).__name__), "no exception", repr(e))]
+    if bool(w) != ref[0]:
+        return [("chlog/via-%s/warns" % route, "warned: %r" % ref[0], "warnings: %r" % (w,))]
+    b = blocks(c)
+    if b != ref[2]:
+        return [("chlog/via-%s/blocks" % route, ref[2], b)]
+    o = _out(c)
+    if o != ref[3]:
+        return [("chlog/via-%s/text" % route, ref[3], o)]
+    return []
+
+
+def _strict_vs(ref, c, w, e, route):
+    from debian.changelog import ChangelogParseError
+    if e is not None and not isinstance(e, ChangelogParseError):
+        return [("chlog/via-%s/strict-raises-other/%s" % (route, type(e).__name__), "ChangelogParseError or nothing", repr(e))]
+    if (e is not None) != ref[0]:
+        return [("chlog/via-%s/strict-lenient-disagree/%s" % (route, "strict-only" if e is not None else "lenient-only"),
+                 "strict raises <=> lenient warns (lenient warned: %r)" % ref[0], "strict: %r" % (e,))]
+    if e is None:
+        b = blocks(c)
+        if b != ref[2]:
+            return [("chlog/via-%s/strict-blocks" % route, ref[2], b)]
+        o = _out(c)
+        if o != ref[3]:
+            return [("chlog/via-%s/strict-text" % route, ref[3], o)]
+    return []
+
+
+def _method(src, aea, how, obj=None, **kw):
+    """parse through parse_changelog on obj (default: a fresh empty Changelog); how: lenient | strict | default"""
+    from debian.changelog import Changelog
+    c = obj if obj is not None else Changelog()
+    args = dict(kw, allow_empty_author=aea)
+    if how != "default":
+        args["strict"] = (how == "strict")
+
+    def go():
+        c.parse_changelog(src() if callable(src) else src, **args)
+        return c
+    return _call(go)
+
+
+def used_objects(seed):
+    """(name, maker of a Changelog that has already been used)"""
+    from debian.changelog import Changelog
+    s = shapes(seed)
+    H, H2, T, CH = s[0], s[1], s[5], s[10]
+    two = "\n".join([H, CH, T, "", H2, "", CH, "", T]) + "\n"
+    warned = "\n".join(["junk", "", H2, CH]) + "\n"
+    aborted = "\n".join(["", H, CH, T, "junk", H2]) + "\n"
+
+    def mk_parsed(text):
+        def mk():
+            return _call(lambda: Changelog(text))[0]
+        return mk
+
+    def mk_aborted():
+        c = Changelog()
+        _call(lambda: c.parse_changelog(aborted, strict=True))
+        return c
+
+    def mk_built():
+        c = Changelog()
+        c.new_block(**copy.deepcopy(OPS[2][1]))
+        c.add_change("  * x")
+        return c
+    return [("after-parse", mk_parsed(two)), ("after-warned-parse", mk_parsed(warned)),
+            ("after-aborted-strict-parse", mk_aborted), ("after-building", mk_built)]
+
+
+def check_parse_routes(text, aea, ref, seed):
+    from debian.changelog import Changelog
+    # parse_changelog on a fresh object: lenient, strict, and with its own default (strict)
+    c, w, e = _method(text, aea, "lenient")
+    bad = _lenient_vs(ref, c, w, e, "parse-method")
+    if bad:
+        return bad
+    for how in ("strict", "default"):
+        c, w, e = _method(text, aea, how)
+        bad = _strict_vs(ref, c, w, e, "parse-method-%s" % how)
+        if bad:
+            return bad
+    # the constructor with every argument spelled out, and positionally
+    c, w, e = _call(lambda: Changelog(file=text, max_blocks=None, allow_empty_author=aea, strict=False, encoding="utf-8"))
+    bad = _lenient_vs(ref, c, w, e, "ctor-explicit")
+    if bad:
+        return bad
+    c, w, e = _call(lambda: Changelog(text, None, aea, True, "utf-8"))
+    bad = _strict_vs(ref, c, w, e, "ctor-positional")
+    if bad:
+        return bad
+    # a second parse on an object that has been used before
+    for name, mk in used_objects(seed):
+        c, w, e = _method(text, aea, "lenient", obj=mk())
+        bad = _lenient_vs(ref, c, w, e, "second-parse/" + name)
+        if bad:
+            return bad
+    obj = Changelog()
+    _method(text, aea, "lenient", obj=obj)
+    c, w, e = _method(text, aea, "lenient", obj=obj)
+    bad = _lenient_vs(ref, c, w, e, "second-parse/same-text-twice")
+    if bad:
+        return bad
+    c, w, e = _method(text, aea, "strict", obj=used_objects(seed)[0][1]())
+    bad = _strict_vs(ref, c, w, e, "second-parse-strict/after-parse")
+    if bad:
+        return bad
+    return []
+
+
+def check_max_blocks(text, aea, ref, c0):
+    from debian.changelog import Changelog, ChangelogCreateError
+    # parsing stops when heading k+1 is met where a heading is expected; a block without a package is the one the
+    # parser appends at the end of a text in which it never found a heading
+    n = sum(1 for b in ref[2] if b[0] is not None)
+    for k in (0, 1, 2, BIG):
+        c, w, e = _call(lambda: Changelog(text, max_blocks=k, allow_empty_author=aea))
+        route = "max-blocks-%s" % ("big" if k == BIG else k)
+        if e is not None:
+            return [("chlog/via-%s/lenient-raises/%s" % (route, type(e).__name__), "no exception", repr(e))]
+        c2, _w2, e2 = _call(lambda: Changelog(text, max_blocks=k, allow_empty_author=aea, strict=True))
+        if k >= n:
+            bad = _lenient_vs(ref, c, w, e, route) or _strict_vs(ref, c2, _w2, e2, route)
+            if bad:
+                return bad
+            continue
+        # stopped at heading k+1: the first k blocks of the unlimited result
+        bad = _strict_vs((bool(w), None, blocks(c), _out(c)), c2, _w2, e2, route)
+        if bad:
+            return bad
+        if blocks(c) != ref[2][:k]:
+            return [("chlog/via-%s/blocks" % route, ref[2][:k], blocks(c))]
+        if ref[0] is False and w:
+            return [("chlog/via-%s/warns" % route, "no warning (the whole text parses without one)", w)]
+        try:
+            exp = "".join(l + "\n" for l in c0.initial_blank_lines) + "".join(str(b) for b in list(c0)[:k])
+        except ChangelogCreateError:
+            exp = "<unformattable>"
+        if _out(c) != exp:
+            return [("chlog/via-%s/text" % route, exp, _out(c))]
+        if k:
+            # (k = 0 leaves only the lines ahead of the first heading; parsing those alone ends in the block the parser
+            # appends at an unexpected end of text, so that text is no changelog and the statement is silent about it)
+            bad, _oc = normal_form(c, aea, "via-" + route)
+            if bad:
+                return bad
+    return []
+
+
+def check_encodings(text, aea):
+    """bytes in another encoding, with the encoding named at the constructor or at the call"""
+    from debian.changelog import Changelog
+    t = text.replace("change", "changé").replace("junk", "jünk")
+    if not t.strip():
+        return []
+    ref = fingerprint(t, aea)
+    if ref[0] == "lenient-raises":
+        return []
+    for enc in ("latin-1", "utf-8"):
+        try:
+            b = t.encode(enc)
+        except UnicodeEncodeError:
+            continue
+        lines = t.splitlines(True)
+        srcs = [("bytes", lambda: b), ("bytes-lines", lambda: b.splitlines(True)),
+                ("mixed-lines", lambda: [l.encode(enc) if i % 2 else l for i, l in enumerate(lines)]),
+                ("bytesio", lambda: io.BytesIO(b))]
+        for name, mk in srcs:
+            route = "encoding-%s/%s" % (enc, name)
+            c, w, e = _call(lambda: Changelog(mk(), allow_empty_author=aea, encoding=enc))
+            bad = _lenient_vs(ref, c, w, e, route)
+            if bad:
+                return bad
+            if name == "bytes":
+                c2, w2, e2 = _call(lambda: Changelog(mk(), allow_empty_author=aea, encoding=enc, strict=True))
+                bad = _strict_vs(ref, c2, w2, e2, route)
+                if bad:
+                    return bad
+                if not ref[3].startswith("<"):
+                    got = _call(lambda: bytes(c))
+                    if got[2] is not None or got[0] != ref[3].encode(enc):
+                        return [("chlog/via-%s/bytes()" % route, ref[3].encode(enc), got[2] or got[0])]
+            # the encoding given to parse_changelog overrides the one of the object
+            c3, w3, e3 = _method(mk, aea, "lenient", obj=Changelog(encoding="ascii"), encoding=enc)
+            bad = _lenient_vs(ref, c3, w3, e3, "call-" + route)
+            if bad:
+                return bad
+    return []
+
+
+def check_files(text, aea, ref):
+    from debian.changelog import Changelog
+    if not text.strip():
+        return []
+    d = tempfile.mkdtemp(prefix="c15-", dir="/dev/shm" if os.path.isdir("/dev/shm") else None)
+    path = os.path.join(d, "changelog")
+    try:
+        with open(path, "w", encoding="utf-8", newline="\n") as f:
+            f.write(text)
+        for name, mode, kw in (("file-text", "r", {"encoding": "utf-8"}), ("file-binary", "rb", {})):
+            for strict in (False, True):
+                with open(path, mode, **kw) as f:
+                    c, w, e = _call(lambda: Changelog(f, allow_empty_author=aea, strict=strict))
+                bad = (_strict_vs if strict else _lenient_vs)(ref, c, w, e, name)
+                if bad:
+                    return bad
+        # and out again through a real file
+        if not ref[3].startswith("<"):
+            c = _call(lambda: Changelog(text, allow_empty_author=aea))[0]
+            out = os.path.join(d, "out")
+            with open(out, "w", encoding="utf-8", newline="\n") as f:
+                r = _call(lambda: c.write_to_open_file(f))
+            got = open(out, encoding="utf-8", newline="\n").read() if r[2] is None else r[2]
+            if got != ref[3]:
+                return [("chlog/via-write-to-real-file/text", ref[3], got)]
+    finally:
+        for n in os.listdir(d):
+            os.unlink(os.path.join(d, n))
+        os.rmdir(d)
+    return []
+
+
+def _cce_or(fn):
+    """-> value | '<unformattable>' | '<raises X>'"""
+    from debian.changelog import ChangelogCreateError
+    try:
+        return fn()
+    except ChangelogCreateError:
+        return "<unformattable>"
+    except Exception as ex:
+        return "<raises %s: %s>" % (type(ex).__name__, ex)
+
+
+def check_format_routes(c0, ref, enc="utf-8"):
+    """every way of getting the text out of one object gives what str() gave"""
+    s = ref[3]
+    if s.startswith("<str raises"):
+        return []
+    sb = s.encode(enc) if not s.startswith("<") else s
+
+    def via_file():
+        f = io.StringIO()
+        c0.write_to_open_file(f)
+        return f.getvalue()
+    routes = [("str-again", lambda: str(c0), s),
+              ("bytes", lambda: bytes(c0), sb),
+              ("write-to-open-file", via_file, s),
+              ("block-str", lambda: "".join(l + "\n" for l in c0.initial_blank_lines) + "".join(str(b) for b in c0), s),
+              ("block-bytes", lambda: "".join(l + "\n" for l in c0.initial_blank_lines).encode(enc) + b"".join(bytes(b) for b in c0), sb),
+              ("index-block-str", lambda: "".join(l + "\n" for l in c0.initial_blank_lines) + "".join(str(c0[i]) for i in range(len(c0))), s),
+              ("copy", lambda: str(copy.copy(c0)), s),
+              ("deepcopy", lambda: str(copy.deepcopy(c0)), s),
+              ("pickle", lambda: str(pickle.loads(pickle.dumps(c0))), s),
+              ("str-after-all", lambda: str(c0), s)]
+    for name, fn, exp in routes:
+        got = _cce_or(fn)
+        if got != exp:
+            return [("chlog/via-%s/text" % name, exp, got)]
+    # copies have the same blocks, and editing a deep copy leaves the original alone
+    for name, mk in (("deepcopy", lambda: copy.deepcopy(c0)), ("pickle", lambda: pickle.loads(pickle.dumps(c0)))):
+        c = mk()
+        if blocks(c) != ref[2]:
+            return [("chlog/via-%s/blocks" % name, ref[2], blocks(c))]
+        for b in c:
+            b.add_change("  * only in the copy")
+            b.package = "copy"
+        if len(c) == 0:
+            c.initial_blank_lines.append("# only in the copy")
+        if blocks(c0) != ref[2] or _out(c0) != s:
+            return [("chlog/via-%s/original-changed-by-editing-the-copy" % name, (ref[2], s), (blocks(c0), _out(c0)))]
+    return []
+
+
+def check_read_routes(c0, ref):
+    """every way of reading the blocks gives what iteration gave"""
+    from debian.debian_support import Version
+    bl = list(c0)
+    n = len(bl)
+    if len(c0) != n:
+        return [("chlog/via-len/count", n, len(c0))]
+    for i in range(-n, n):
+        r = _cce_or(lambda: c0[i])
+        if r is not bl[i]:
+            return [("chlog/via-index/block", "block #%d: %r" % (i, ref[2][i]), r if isinstance(r, str) else blocks([r]))]
+    r = _cce_or(lambda: c0[n])
+    if not (isinstance(r, str) and r.startswith("<raises IndexError")):
+        return [("chlog/via-index/past-the-end", "IndexError", r if isinstance(r, str) else blocks([r]))]
+    if n == 0:
+        return []
+    top = ref[2][0]
+    for name, fn, exp in (("package", lambda: c0.package, top[0]), ("get_package", lambda: c0.get_package(), top[0]),
+                          ("distributions", lambda: c0.distributions, top[2]), ("urgency", lambda: c0.urgency, top[3]),
+                          ("author", lambda: c0.author, top[5]), ("date", lambda: c0.date, top[6])):
+        got = _cce_or(fn)
+        if got != exp:
+            return [("chlog/via-property/%s" % name, exp, got)]
+    raws = [b[1] for b in ref[2]]
+    if None in raws:
+        # a block that never had a heading: no version at all
+        for i, b in enumerate(bl):
+            if raws[i] is None and _cce_or(lambda: b.version) is not None:
+                return [("chlog/via-block-version/none", None, repr(_cce_or(lambda: b.version)))]
+        return []
+    vs = []
+    for raw in raws:
+        try:
+            vs.append(Version(raw))
+        except ValueError:
+            vs.append(None)
+    for i, b in enumerate(bl):
+        got = _cce_or(lambda: b.version)
+        if vs[i] is None:
+            if not (isinstance(got, str) and got.startswith("<raises ValueError")):
+                return [("chlog/via-block-version/invalid", "ValueError (%r is not a Debian version)" % raws[i], repr(got))]
+        elif isinstance(got, str) or str(got) != raws[i] or type(got) is not Version:
+            return [("chlog/via-block-version/value", raws[i], repr(got))]
+    if vs[0] is not None:
+        v0 = vs[0]
+        for name, fn, exp in (("version", lambda: str(c0.version), raws[0]), ("get_version", lambda: str(c0.get_version()), raws[0]),
+                              ("full_version", lambda: c0.full_version, raws[0]), ("epoch", lambda: c0.epoch, v0.epoch),
+                              ("upstream_version", lambda: c0.upstream_version, v0.upstream_version),
+                              ("debian_revision", lambda: c0.debian_revision, v0.debian_revision),
+                              ("debian_version", lambda: c0.debian_version, v0.debian_revision)):
+            got = _cce_or(fn)
+            if got != exp:
+                return [("chlog/via-property/%s" % name, exp, got)]
+    if None not in vs:
+        for name, fn in (("versions", lambda: [str(v) for v in c0.versions]), ("get_versions", lambda: [str(v) for v in c0.get_versions()])):
+            got = _cce_or(fn)
+            if got != raws:
+                return [("chlog/via-property/%s" % name, raws, got)]
+        for i, raw in enumerate(raws):
+            first = min(j for j in range(n) if vs[j] == vs[i])
+            for name, key in (("version-text", raw), ("version-object", vs[i])):
+                got = _cce_or(lambda: c0[key])
+                if got is not bl[first]:
+                    return [("chlog/via-index/%s" % name, "block #%d (the first with version %s)" % (first, raw),
+                             got if isinstance(got, str) else blocks([got]))]
+    return []
+
+
+def check_routes(text, aea, seed):
+    """-> (violations, 0 | (number of route families evaluated, outcome class))"""
+    from debian.changelog import Changelog
+    c0, w0, e0 = run(text, allow_empty_author=aea)
+    if e0 is not None:
+        return [], 0                # reported by the constructor pass
+    _c, _w, e2 = run(text, allow_empty_author=aea, strict=True)
+    ref = (bool(w0), type(e2).__name__ if e2 is not None else None, blocks(c0), _out(c0))
+    for fn in (lambda: check_parse_routes(text, aea, ref, seed), lambda: check_max_blocks(text, aea, ref, c0),
+               lambda: check_encodings(text, aea), lambda: check_files(text, aea, ref),
+               lambda: check_read_routes(c0, ref), lambda: check_format_routes(c0, ref)):
+        bad = fn()
+        if bad:
+            return bad, (1, "")
+    return [], (6, "%d-blocks/%s/%s" % (min(len(ref[2]), 3), "warn" if ref[0] else "clean",
+                                        "unformattable" if ref[3].startswith("<") else "text"))
+
+
+def check_none():
+    """file=None is 'no text': the constructor parses nothing, parse_changelog reports an empty changelog in both modes"""
+    from debian.changelog import Changelog, ChangelogParseError
+    c, w, e = _call(lambda: Changelog(None, strict=True))
+    if e is not None or w or len(c) != 0 or str(c) != "":
+        return [("chlog/via-none/ctor", "an empty changelog, no warning", (w, e))]
+    c, w, e = _method(None, False, "lenient")
+    c2, w2, e2 = _method(None, False, "strict")
+    c3, w3, e3 = _method(None, False, "default")
+    if e is not None:
+        return [("chlog/via-none/lenient-raises/%s" % type(e).__name__, "no exception", repr(e))]
+    if not (bool(w) and isinstance(e2, ChangelogParseError) and isinstance(e3, ChangelogParseError)):
+        return [("chlog/via-none/strict-lenient-disagree", "lenient warns, strict raises", (w, e2, e3))]
+    return []
+
+
 # ---------------------------------------------------------------- (b) mutations of well-formed changelogs
 
 def wellformed(seed):
@@ -277,7 +708,12 @@ OPS = [("new_block", NB),
        # the same assignments made on a block object (top block and oldest block) instead of the Changelog
        ("bset", 0, "author", "R <r@r>"), ("bset", 0, "date", "Fri, 05 Jan 2024 01:02:03 +0000"),
        ("bset", -1, "author", "S <s@s>"), ("bset", -1, "date", "Sat, 06 Jan 2024 01:02:03 +0000"),
-       ("bset", -1, "distributions", "stable"), ("badd", -1, "  * added to the oldest block")]
+       ("bset", -1, "distributions", "stable"), ("badd", -1, "  * added to the oldest block"),
+       # further attributes of a block object, lines after its trailer, and objects that came into being differently:
+       # the changelog parsed again from its own text (on the same object), a deep copy, a pickle round trip
+       ("btrail", 0, ""), ("btrail", -1, "# note"), ("bset", 0, "urgency_comment", " (c d)"),
+       ("bset", -1, "other_pairs", {"x-k": "v"}), ("bset", -1, "version", "9.9-1"), ("bset", -1, "package", "yy"),
+       ("bset", 0, "urgency", "high"), ("reparse",), ("deepcopy",), ("pickle",)]
 
 
 def bases(seed):
@@ -290,31 +726,147 @@ def bases(seed):
             "\n".join([H, CH, " --"]) + "\n"]             # bare trailer (allow_empty_author)
 
 
-def run_history(base, hist):
-    """-> (violations, outcome)"""
+VARIANTS = ["plain", "set-methods", "on-block", "typed-positional", "observed", "base-via-parse-method"]
+NB_ORDER = ("package", "version", "distributions", "urgency", "urgency_comment", "changes", "author", "date", "other_pairs")
+
+
+def _observe(c):
+    """read and format everything; -> None | description of an unexpected exception"""
+    for fn in (lambda: str(c), lambda: bytes(c), lambda: len(c), lambda: [str(v) for v in c.versions],
+               lambda: [(b.package, str(b.version), b.distributions, b.urgency, list(b.changes()), b.author, b.date,
+                         str(b), bytes(b)) for b in c],
+               lambda: copy.deepcopy(c)):
+        r = _cce_or(fn)
+        if isinstance(r, str) and r.startswith("<raises"):
+            return r
+    return None
+
+
+def run_history(base, hist, variant="plain"):
+    """-> (violations, outcome, (blocks, text) at the end)"""
     from debian.changelog import Changelog
+    from debian.debian_support import Version
     aea = True
-    if base:
+    if base and variant == "base-via-parse-method":
+        c, _w, e = _method(base.encode("utf-8"), aea, "lenient")
+    elif base:
         c, _w, e = run(base, allow_empty_author=aea)
-        if e is not None:
-            return [("chlog/lenient-raises/%s" % type(e).__name__, "no exception", repr(e))], None
     else:
-        c = Changelog()
+        c, e = Changelog(), None
+    if e is not None:
+        return [("chlog/lenient-raises/%s" % type(e).__name__, "no exception", repr(e))], None, None
+    typed = variant == "typed-positional"
     for op in hist:
+        op = copy.deepcopy(op)       # the library keeps (and edits in place) the lists it is given
         try:
             if op[0] == "new_block":
-                c.new_block(**dict(op[1]))
+                kw = dict(op[1])
+                if typed:
+                    if kw.get("version") is not None:
+                        kw["version"] = Version(kw["version"])
+                    c.new_block(*[kw.get(k) for k in NB_ORDER])
+                else:
+                    c.new_block(**kw)
             elif op[0] == "add_change":
-                c.add_change(op[1])
+                if variant == "on-block":
+                    c[0].add_change(op[1])
+                else:
+                    c.add_change(op[1])
             elif op[0] == "bset":
-                setattr(c[op[1]], op[2], op[3])
+                val = Version(op[3]) if typed and op[2] == "version" else op[3]
+                setattr(c[op[1]], op[2], val)
             elif op[0] == "badd":
                 c[op[1]].add_change(op[2])
+            elif op[0] == "btrail":
+                b = c[op[1]]
+                if b.author is not None and b.date is not None:     # only a block that has its trailer line
+                    b.add_trailing_line(op[2])
+            elif op[0] == "reparse":
+                text = _out(c)
+                if not text.startswith("<") and text.strip():
+                    _c, _w, e = _method(text, aea, "lenient", obj=c)
+                    if e is not None:
+                        return [("chlog/edited/reparse-raises/%s" % type(e).__name__, "lenient parse never raises", repr(e))], None, None
+            elif op[0] == "deepcopy":
+                c = copy.deepcopy(c)
+            elif op[0] == "pickle":
+                c = pickle.loads(pickle.dumps(c))
             else:
-                setattr(c, op[1], op[2])
-        except IndexError:
-            return [], "no-block"          # editing the top block of an empty changelog: not a history
-    return normal_form(c, aea, "edited")
+                val = Version(op[2]) if typed and op[1] == "version" else op[2]
+                if variant == "set-methods":
+                    getattr(c, "set_" + op[1])(val)
+                elif variant == "on-block":
+                    setattr(c[0], op[1], val)
+                else:
+                    setattr(c, op[1], val)
+        except IndexError as ex:
+            if _cce_or(lambda: len(c)) != 0:
+                return [("chlog/edited/index-error-with-blocks", "block #%r of %r" % (op[1], _cce_or(lambda: len(c))), repr(ex))], None, None
+            return [], "no-block", None          # editing the top block of an empty changelog: not a history
+        if variant == "observed":
+            r = _observe(c)
+            if r is not None:
+                return [("chlog/edited/via-observed/reading-raises", "no exception", r)], None, None
+    bad, oc = normal_form(c, aea, "edited")
+    return bad, oc, (blocks(c), _out(c))
+
+
+def run_history_all(base, hist):
+    """the plain history, then the same history along the other routes -> (violations, outcome, runs)"""
+    bad, oc, fp = run_history(base, hist)
+    if bad:
+        return bad, oc, 1
+    for k, variant in enumerate(VARIANTS[1:]):
+        bad2, oc2, fp2 = run_history(base, hist, variant)
+        if bad2:
+            return [(sig.replace("chlog/", "chlog/via-%s/" % variant, 1), e, o) for sig, e, o in bad2], oc, k + 2
+        if oc2 != oc or fp2 != fp:
+            what = "outcome" if oc2 != oc else "blocks" if fp2[0] != fp[0] else "text"
+            return [("chlog/edited/via-%s/%s" % (variant, what), (oc, fp), (oc2, fp2))], oc, k + 2
+    return [], oc, len(VARIANTS)
+
+
+# ---------------------------------------------------------------- ChangeBlock objects built directly, other encodings
+
+def direct_cases():
+    return [{"kind": "direct", "args": ki, "encoding": enc} for ki in (0, 1, 2) for enc in ("utf-8", "latin-1")]
+
+
+def check_direct(ki, enc):
+    from debian.changelog import Changelog, ChangeBlock
+
+    def kw():
+        d = copy.deepcopy(OPS[ki][1])
+        d["author"] = "\u00d1 \u00c9 <n@n>"
+        if d.get("changes"):
+            d["changes"].insert(1, "  * ch\u00e4ng\u00e9")
+        return d
+    c = Changelog(encoding=enc)
+    c.new_block(**kw())
+    s = _out(c)
+    if s.startswith("<"):
+        return [("chlog/direct/new-block-unformattable", "text", s)]
+    sb = s.encode(enc)
+    b = ChangeBlock(encoding=enc, **kw())
+    k = kw()
+    bp = ChangeBlock(*([k.get(n) for n in NB_ORDER] + [enc]))
+    c2 = Changelog()
+    c2.new_block(encoding=enc, **kw())
+    for name, fn, exp in (("block-str", lambda: str(b) + "\n", s), ("block-bytes", lambda: bytes(b) + b"\n", sb),
+                          ("positional-block-str", lambda: str(bp) + "\n", s), ("positional-block-bytes", lambda: bytes(bp) + b"\n", sb),
+                          ("changelog-bytes", lambda: bytes(c), sb), ("top-block-bytes", lambda: bytes(c[0]), sb),
+                          ("top-block-str", lambda: str(c[0]), s),
+                          ("new-block-encoding-str", lambda: str(c2), s), ("new-block-encoding-block-bytes", lambda: bytes(c2[0]), sb)):
+        got = _cce_or(fn)
+        if got != exp:
+            return [("chlog/direct/%s/%s" % (enc, name), exp, got)]
+    c3, w3, e3 = _call(lambda: Changelog(sb, encoding=enc, strict=True))
+    if e3 is not None:
+        return [("chlog/direct/%s/reparse-raises/%s" % (enc, type(e3).__name__), "parses in strict mode", repr(e3))]
+    if blocks(c3) != blocks(c) or _out(c3) != s or _cce_or(lambda: bytes(c3)) != sb:
+        return [("chlog/direct/%s/normal-form" % enc, (blocks(c), s), (blocks(c3), _out(c3)))]
+    bad, _oc = normal_form(c, True, "direct")
+    return bad
 
 
 # ---------------------------------------------------------------- units
@@ -338,12 +890,18 @@ def units(tier, seed):
     out.append({"kind": "pristine-seq", "first": None})
     out += [{"kind": "pristine-seq", "first": i} for i in range(n)]
     out += [{"kind": "pristine-mut", "w": wi} for wi in range(3)]
+    # (d) the other routes
+    out.append({"kind": "routes-seq", "first": None})
+    out += [{"kind": "routes-seq", "first": i} for i in range(n)]
+    for wi in range(3):
+        out += [{"kind": "routes-mut", "w": wi, "pos": pos} for pos in range(len(wellformed(seed)[wi]) + 1)]
+    out.append({"kind": "direct"})
     return out
 
 
 def unit_cost(u, tier):
-    return {"seq": 10 if u.get("prefix") else 1, "mut1": 3, "mut2": 8, "edit": 4, "pristine-seq": 12,
-            "pristine-mut": 6}[u["kind"]]
+    return {"seq": 10 if u.get("prefix") else 1, "mut1": 3, "mut2": 8, "edit": 9, "pristine-seq": 12,
+            "pristine-mut": 6, "routes-seq": 2 if tier == "quick" else 11, "routes-mut": 3, "direct": 1}[u["kind"]]
 
 
 def run_unit(u, tier, seed):
@@ -448,6 +1006,50 @@ def run_unit(u, tier, seed):
         finally:
             P.close()
         part.sample(cases[len(cases) // 2])
+    elif u["kind"] in ("routes-seq", "routes-mut"):
+        if u["kind"] == "routes-seq":
+            n = ROUTES_MAXLEN[tier]
+            if u["first"] is None:
+                seqs = [()]
+                bad = check_none()
+                part.traces += 4
+                part.evaluations += 1
+                for sig, exp, obs in bad:
+                    part.violation(sig, {"kind": "routes-none"}, exp, obs, rank=0)
+            else:
+                seqs = [(u["first"],) + rest for L in range(0, n) for rest in itertools.product(range(len(sh)), repeat=L)]
+            cases = [{"kind": "routes-seq", "seq": q, "aea": aea, "seed": seed} for q in seqs for aea in (False, True)]
+            part.max_depth = n
+        else:
+            base = wellformed(seed)[u["w"]]
+            cases = [{"kind": "routes-mut", "w": u["w"], "edits": [e], "aea": aea, "seed": seed}
+                     for e in single_edits(base, seed) if e[1] == u["pos"] for aea in (False, True)]
+        for case in cases:
+            n0 = NCALLS[0]
+            bad, nroutes = check_routes(case_text(case), case["aea"], seed)
+            part.states += 1
+            part.transitions += 1
+            part.traces += NCALLS[0] - n0       # parses executed along the routes (formatting/reading routes not counted)
+            part.evaluations += nroutes[0] if nroutes else 0
+            if nroutes and nroutes[0] == 6:
+                part.nontrivial += 1
+            for sig, exp, obs in bad:
+                part.violation(sig, case, exp, obs, rank=len(case.get("seq", ())) + 100 * len(case.get("edits", ())))
+            part.outcomes["routes/" + ("violation" if bad else "skipped" if not nroutes else "agree/" + nroutes[1])] += 1
+        if cases:
+            part.sample(cases[len(cases) // 2])
+    elif u["kind"] == "direct":
+        for case in direct_cases():
+            bad = check_direct(case["args"], case["encoding"])
+            part.states += 1
+            part.transitions += 1
+            part.traces += 1
+            part.evaluations += 10
+            part.nontrivial += 1
+            for sig, exp, obs in bad:
+                part.violation(sig, case, exp, obs, rank=150)
+            part.outcomes["direct/" + ("violation" if bad else "agree")] += 1
+        part.sample(direct_cases()[-1])
     else:
         depth = 2 if tier == "quick" else 3
         base = bases(seed)[u["base"]]
@@ -456,11 +1058,11 @@ def run_unit(u, tier, seed):
                 hist_i = (u["first"],) + rest
                 hist = [OPS[i] for i in hist_i]
                 case = {"kind": "edit", "base": u["base"], "hist": hist_i, "seed": seed}
-                bad, oc = run_history(base, hist)
+                bad, oc, nruns = run_history_all(base, hist)
                 part.states += 1
                 part.transitions += 1
-                part.traces += 1
-                part.evaluations += 1
+                part.traces += nruns
+                part.evaluations += nruns
                 for sig, exp, obs in bad:
                     part.violation(sig, case, exp, obs, rank=200 + len(hist))
                 if oc:
@@ -472,9 +1074,26 @@ def run_unit(u, tier, seed):
     return part
 
 
+def case_text(case):
+    seed = case.get("seed", 0)
+    if "seq" in case:
+        sh = shapes(seed)
+        return "\n".join(sh[i] for i in case["seq"]) + "\n" if case["seq"] else ""
+    lines = wellformed(seed)[case["w"]]
+    for e in case["edits"]:
+        lines = apply_edit(lines, tuple(e), seed)
+    return "\n".join(lines) + "\n"
+
+
 def replay(case):
     seed = case.get("seed", 0)
     sh = shapes(seed)
+    if case["kind"] in ("routes-seq", "routes-mut"):
+        return check_routes(case_text(case), case["aea"], seed)[0]
+    if case["kind"] == "routes-none":
+        return check_none()
+    if case["kind"] == "direct":
+        return check_direct(case["args"], case["encoding"])
     if case["kind"] == "seq":
         text = "\n".join(sh[i] for i in case["seq"]) + "\n" if case["seq"] else ""
         bad = check_text(text, case["aea"])[0]
@@ -488,4 +1107,4 @@ def replay(case):
         for e in case["edits"]:
             lines = apply_edit(lines, tuple(e), seed)
         return check_text("\n".join(lines) + "\n", case["aea"])[0]
-    return run_history(bases(seed)[case["base"]], [OPS[i] for i in case["hist"]])[0]
+    return run_history_all(bases(seed)[case["base"]], [OPS[i] for i in case["hist"]])[0]
